@@ -71,6 +71,8 @@ func vb(h int, m string, size int64) Op {
 func op(t string, h int) Op { return Op{T: t, H: h} }
 func open(m string) Op     { return Op{T: "open", Mode: m} }
 
+var zero, one = 0, 1
+
 var (
 	fl  = Fmt{K: "line"}
 	fa  = Fmt{K: "all"}
@@ -131,6 +133,17 @@ func corpus(w *lib.Writer) {
 		// used to kill the process with "out of memory"
 		{Init: lit("abc\ndef"), Ops: []Op{open("r"), rd(0, cnt(1)), rd(0, cnt(-1)), rd(0, cnt(-1)), sk(0, "set", 2), rd(0, cnt(1 << 31)), sk(0, "set", 0), rd(0, cnt(1 << 40)), rd(0, cnt(1 << 53)), op("close", 0), snp}},
 		{Init: encode(patterned(0, 9000)), Ops: []Op{open("r+"), rd(0, cnt(8191)), rd(0, cnt(2)), sk(0, "set", 1), rd(0, cnt(-5)), rd(0, cnt(0)), sk(0, "set", 808), rd(0, cnt(8192), cnt(1 << 40)), op("close", 0), snp}},
+		// the state is closed with files open: what a buffered writer holds reaches the file
+		{Init: lit(""), Ops: []Op{open("w"), vb(0, "full", 0), wr(0, "hello world\n"), snp, Op{T: "lclose"}, snp}},
+		{Init: lit("0123456789"), Ops: []Op{open("r+"), vb(0, "line", 8), rd(0, cnt(2)), sk(0, "cur", 0), wr(0, "AB"), open("a"), vb(1, "full", 0), Op{T: "lclose"}, snp}},
+		// iterators are closures over their file: called without arguments, or with another handle
+		{Init: lit("l1\nl2\nl3\nl4\n"), Ops: []Op{open("r"), open("r"), Op{T: "lines", H: 0, K: 1, Via: "io"}, Op{T: "next", H: 0, K: 1, Arg: &one}, rd(1, fl), Op{T: "lines", H: 1, K: 1, Arg: &zero}, rd(0, fl), op("close", 0), op("close", 1), snp}},
+		// "*n" reads a C numeral and leaves the rest; no numeral is a plain nil after the earlier values
+		{Init: lit("12px 1p5 1_000 3pm 0x10 inf -.5a"), Ops: []Op{open("r"), rd(0, fn), rd(0, cnt(2)), rd(0, fn), rd(0, cnt(2)), rd(0, fn), rd(0, cnt(4)), rd(0, fn, cnt(2)), rd(0, cnt(1), fn), rd(0, cnt(3)), rd(0, cnt(1), fn), rd(0, cnt(3), fn), rd(0, fa), op("close", 0), snp}, Flavour: "num"},
+		// only the letter after '*' counts
+		{Init: lit("abc\ndef\n12\nrest"), Ops: []Op{open("r"), rd(0, Fmt{K: "line", Long: true}), rd(0, fl, Fmt{K: "num", Long: true}), rd(0, Fmt{K: "all", Long: true}), op("close", 0), snp}, Flavour: "num"},
+		// flush/setvbuf on a handle that is only read succeed; the standard files are not closed
+		{Init: lit("abc"), Ops: []Op{open("r"), op("flush", 0), vb(0, "full", 0), vb(0, "no", 0), wr(0, "x"), Op{T: "stdclose", Which: "stdout"}, Op{T: "stdclose", Which: "stderr"}, op("close", 0), snp}},
 		// boundaries: counts across the buffer, read(0) at the end, holes
 		{Init: encode(patterned(0, 9000)), Ops: []Op{open("r+"), rd(0, cnt(4095)), rd(0, cnt(2)), rd(0, cnt(5000)), rd(0, cnt(0)), rd(0, cnt(1)), sk(0, "set", 4096), wr(0, "ZZ"), sk(0, "cur", -3), rd(0, cnt(4)), sk(0, "end", 5), wr(0, "!"), op("close", 0), snp}},
 		{Init: encode(patterned(0, 4096)), Ops: []Op{open("r"), rd(0, cnt(4096)), rd(0, cnt(0)), sk(0, "set", -1), sk(0, "end", -1), rd(0, fa), rd(0, fa), rd(0, fl), op("close", 0), snp}},
